@@ -245,7 +245,7 @@ pub mod c20 {
         // identity derivation
         for flavor in ["helper", "shard"] {
             let good: [&str; 3] = if flavor == "helper" { ["A", "B", "C"] } else { ["0", "1", "2"] };
-            let mut headers = vec!["none", "bad", "", "H1", "-1", "a", "4294967296"];
+            let mut headers = vec!["none", "bad", "", "H1", "-1", "a", "4294967296", "4294967295", "+1", "007", "+", "1_0", "0x1"];
             headers.extend(good);
             for arm in ["tls", "plain"] {
                 for cert in ["none", "0", "1", "2"] {
@@ -646,6 +646,10 @@ pub mod c20_live {
             if thorough {
                 hdrs.push(format!("{own}={}", val(own, 2)));
                 hdrs.push(format!("{other}={BAD}"));
+                // what the identity parsers accept / refuse at the edges (u32::from_str, "A"|"B"|"C")
+                for e in ["", "+1", "007", "4294967295", "4294967296", "-1", "a", "H1", "+"] {
+                    hdrs.push(format!("{own}={e}"));
+                }
             }
             for bind in ["self", "pre"] {
                 for cert in ["none", "1", "0", "x"] {
